@@ -730,7 +730,329 @@ def _compile_mesh_loops(tree):
             f"def imapInner (s : ImapSt) ({xv} : Nat) : ImapSt :=\n  if dhas s.imap {xv} then s else\n" + "\n".join(ul) + "\n    s\n\n"
             "/-- `imap = dict(); i = 0; for F in self._output_mesh.faces: for v in F: ..` -/\n"
             "def imapLoop (faces : List (List Nat)) : ImapSt := faces.foldl (fun s f => f.foldl imapInner s) { imap := [], i := 0 }\n")
-    return corner + "\n" + union + "\n" + imap
+    # ---- round 5: find loop, map loop, order_verts ---------------------------------------------------------------
+    def face_rewrite_loop(lp):
+        """`for i,F in enumerate(self._output_mesh.faces): self._output_mesh.faces[i] = [<elt> for v in F]` -> (elt node, var)"""
+        it = lp.iter
+        ok = isinstance(it, ast.Call) and getattr(it.func, "id", None) == "enumerate" and len(it.args) == 1 and _path(it.args[0]) == "self._output_mesh.faces" \
+            and isinstance(lp.target, ast.Tuple) and len(lp.target.elts) == 2 and all(isinstance(t, ast.Name) for t in lp.target.elts)
+        b = _strip(lp.body)
+        if not (ok and len(b) == 1 and isinstance(b[0], ast.Assign)): return None
+        tg, v = b[0].targets[0], b[0].value
+        ok = isinstance(tg, ast.Subscript) and _path(tg.value) == "self._output_mesh.faces" and isinstance(tg.slice, ast.Name) and tg.slice.id == lp.target.elts[0].id \
+            and isinstance(v, ast.ListComp) and len(v.generators) == 1 and not v.generators[0].ifs and isinstance(v.generators[0].iter, ast.Name) \
+            and v.generators[0].iter.id == lp.target.elts[1].id and isinstance(v.generators[0].target, ast.Name)
+        return (v.elt, v.generators[0].target.id) if ok else None
+    fl = ml = None
+    for lp in loops:
+        r = face_rewrite_loop(lp)
+        if r is None: continue
+        elt, var = r
+        if isinstance(elt, ast.Call) and isinstance(elt.func, ast.Attribute) and elt.func.attr == "find" and isinstance(elt.func.value, ast.Name) \
+                and [getattr(a, "id", None) for a in elt.args] == [var]:
+            if fl is not None: raise TranslateError("_build_mesh_with_cuts: two find loops")
+            fl = lp
+        elif isinstance(elt, ast.Subscript) and isinstance(elt.value, ast.Name) and elt.value.id == dname and isinstance(elt.slice, ast.Name) and elt.slice.id == var:
+            if ml is not None: raise TranslateError("_build_mesh_with_cuts: two renumbering loops")
+            ml = lp
+        else: raise TranslateError(f"_build_mesh_with_cuts: face rewrite `{ast.unparse(elt)[:50]}` not recognised")
+    if fl is None or ml is None: raise TranslateError("_build_mesh_with_cuts: the find loop / the renumbering loop over self._output_mesh.faces not found")
+    if not (body.index(l2) < body.index(fl) < body.index(l3) < body.index(ml)):
+        raise TranslateError("_build_mesh_with_cuts: order of the stages (unions, find, imap, renumbering) changed")
+    # order_verts
+    ol = None
+    for lp in loops:
+        it = lp.iter
+        if isinstance(it, ast.Call) and getattr(it.func, "id", None) == "range" and len(it.args) == 1 and isinstance(it.args[0], ast.Call) \
+                and getattr(it.args[0].func, "id", None) == "len" and _path(it.args[0].args[0]) == "self._output_mesh.vertices" and isinstance(lp.target, ast.Name):
+            ol = lp
+    if ol is None: raise TranslateError("_build_mesh_with_cuts: `for u in range(len(self._output_mesh.vertices))` not found")
+    io = body.index(ol)
+    oinit = body[io - 1]
+    ok = isinstance(oinit, ast.Assign) and isinstance(oinit.targets[0], ast.Name) and isinstance(oinit.value, ast.BinOp) and isinstance(oinit.value.op, ast.Mult)
+    if ok:
+        a, b2 = oinit.value.left, oinit.value.right
+        if isinstance(b2, ast.List): a, b2 = b2, a
+        ok = isinstance(a, ast.List) and len(a.elts) == 1 and getattr(a.elts[0], "value", 0) is None and isinstance(b2, ast.Call) \
+            and getattr(b2.func, "id", None) == "len" and isinstance(b2.args[0], ast.Name) and b2.args[0].id == dname
+    if not ok: raise TranslateError("_build_mesh_with_cuts: `order_verts = [None]*len(imap)` not found right before its loop")
+    oname = oinit.targets[0].id
+    uvar = ol.target.id
+    ob = _strip(ol.body)
+    def member(test, neg):
+        return isinstance(test, ast.Compare) and len(test.ops) == 1 and isinstance(test.ops[0], ast.NotIn if neg else ast.In) \
+            and isinstance(test.left, ast.Name) and test.left.id == uvar and isinstance(test.comparators[0], ast.Name) and test.comparators[0].id == dname
+    if len(ob) == 2 and isinstance(ob[0], ast.If) and member(ob[0].test, True) and len(_strip(ob[0].body)) == 1 and isinstance(_strip(ob[0].body)[0], ast.Continue) and not ob[0].orelse:
+        wr = ob[1]
+    elif len(ob) == 1 and isinstance(ob[0], ast.If) and member(ob[0].test, False) and not ob[0].orelse and len(_strip(ob[0].body)) == 1:
+        wr = _strip(ob[0].body)[0]
+    else: raise TranslateError("_build_mesh_with_cuts: body of the order_verts loop is not `if u not in imap: continue; order_verts[imap[u]] = vertices[u]`")
+    ok = isinstance(wr, ast.Assign) and isinstance(wr.targets[0], ast.Subscript) and isinstance(wr.targets[0].value, ast.Name) and wr.targets[0].value.id == oname \
+        and isinstance(wr.targets[0].slice, ast.Subscript) and isinstance(wr.targets[0].slice.value, ast.Name) and wr.targets[0].slice.value.id == dname \
+        and isinstance(wr.targets[0].slice.slice, ast.Name) and wr.targets[0].slice.slice.id == uvar \
+        and isinstance(wr.value, ast.Subscript) and _path(wr.value.value) == "self._output_mesh.vertices" and isinstance(wr.value.slice, ast.Name) and wr.value.slice.id == uvar
+    if not ok: raise TranslateError(f"_build_mesh_with_cuts: `{ast.unparse(wr)[:70]}` is not `order_verts[imap[u]] = self._output_mesh.vertices[u]`")
+    after = body[io + 1:io + 3]
+    ok = len(after) == 2 and isinstance(after[0], ast.Expr) and isinstance(after[0].value, ast.Call) and _path(after[0].value.func) == "self._output_mesh.vertices.clear" \
+        and isinstance(after[1], ast.AugAssign) and _path(after[1].target) == "self._output_mesh.vertices" and isinstance(after[1].op, ast.Add) \
+        and isinstance(after[1].value, ast.Name) and after[1].value.id == oname
+    if not ok: raise TranslateError("_build_mesh_with_cuts: the vertices are not replaced by order_verts (`clear()` then `+= order_verts`) right after the loop")
+    stages = ("/-- body of `for i,F in enumerate(faces): faces[i] = [uf.find(v) for v in F]`; `none` = the ValueError of `find` -/\n"
+              "def findStep (acc : Option (UF.State × List (List Nat))) (x1 : List Nat) : Option (UF.State × List (List Nat)) :=\n"
+              "  match acc with\n  | none => none\n  | some (uf, out) =>\n    match findAll uf x1 with\n    | none => none\n    | some (uf, r) => some (uf, out ++ [r])\n\n"
+              "def findLoop (uf : UF.State) (faces : List (List Nat)) : Option (UF.State × List (List Nat)) := faces.foldl findStep (some (uf, []))\n\n"
+              "/-- body of `for iF,F in enumerate(faces): faces[iF] = [imap[v] for v in F]`; `none` = KeyError -/\n"
+              "def mapStep (imap : List (Nat × Nat)) (acc : Option (List (List Nat))) (x1 : List Nat) : Option (List (List Nat)) :=\n"
+              "  match acc with\n  | none => none\n  | some out =>\n    match mapFace imap x1 with\n    | none => none\n    | some r => some (out ++ [r])\n\n"
+              "def mapLoop (imap : List (Nat × Nat)) (faces : List (List Nat)) : Option (List (List Nat)) := faces.foldl (mapStep imap) (some [])\n\n"
+              "/-- body of `for u in range(len(vertices))`: `if u not in imap: continue; order_verts[imap[u]] = vertices[u]` -/\n"
+              "def orderStep (imap : List (Nat × Nat)) (verts : List Nat) (ov : List (Option Nat)) (x1 : Nat) : List (Option Nat) :=\n"
+              "  if !(dhas imap x1) then ov else ov.set (dget imap x1) (some (verts.getD x1 0))\n\n"
+              "/-- `order_verts = [None]*len(imap)` and the loop; the result replaces the vertex list -/\n"
+              "def orderLoop (imap : List (Nat × Nat)) (verts : List Nat) : List (Option Nat) :=\n"
+              "  (List.range verts.length).foldl (orderStep imap verts) (List.replicate imap.length none)\n")
+    return corner + "\n" + union + "\n" + imap + "\n" + stages
+
+
+# ------------------------------------------------------------------------------------------------------------------
+# _build_dual_tree_no_features  (round 5)  ->  Generated/C16Dual.lean
+# ------------------------------------------------------------------------------------------------------------------
+DUAL_PARAMS = ("(E : List (Nat × Nat)) (forbidden : Nat → Bool) (opp : Nat → Nat → Nat → Option Nat) (fd : Nat → Nat → Rat)")
+
+
+class DualCompiler:
+    """statements of `_build_dual_tree_no_features` over the record `s : DSt` (visited, path, dist, queue)"""
+
+    def __init__(self, roles, fparam, fdname):
+        self.roles = roles            # python local -> "visited" | "path" | "dist" | "queue"
+        self.fparam = fparam          # name of the `forbidden_edges` parameter
+        self.fdname = fdname          # name of the nested distance function
+        self.env = Env("_build_dual_tree_no_features")
+        self.inner = None
+
+    def ex(self, n):
+        """-> (lean, type) with types nat | rat | optrat | optnat | bool | pair"""
+        f = "_build_dual_tree_no_features"
+        if isinstance(n, ast.Constant):
+            if isinstance(n.value, bool): return ("true" if n.value else "false"), "bool"
+            if isinstance(n.value, int) and n.value >= 0: return str(n.value), "nat"
+            raise TranslateError(f"{f}: constant {n.value!r}")
+        if isinstance(n, ast.Name): return self.env.get(n.id)
+        if isinstance(n, ast.Subscript):
+            if isinstance(n.value, ast.Name) and n.value.id in self.roles:
+                k, tk = self.ex(n.slice)
+                if tk != "nat": raise TranslateError(f"{f}: index of type {tk}")
+                r = self.roles[n.value.id]
+                if r == "queue": raise TranslateError(f"{f}: subscript of the queue")
+                return f"s.{r} {k}", {"visited": "bool", "path": "optnat", "dist": "optrat"}[r]
+            if isinstance(n.value, ast.Name) and n.value.id == self.fparam:
+                k, _ = self.ex(n.slice); return f"forbidden {k}", "bool"
+            if _path(n.value) == "self.input_mesh.edges":
+                k, _ = self.ex(n.slice); return f"(edgeEnds E {k})", "pair"
+            raise TranslateError(f"{f}: subscript `{ast.unparse(n)[:50]}`")
+        if isinstance(n, ast.Call) and not n.keywords:
+            if isinstance(n.func, ast.Name) and n.func.id == self.fdname and len(n.args) == 2:
+                a, _ = self.ex(n.args[0]); b, _ = self.ex(n.args[1]); return f"fd {a} {b}", "rat"
+            if _path(n.func) == "self.input_mesh.connectivity.opposite_face" and len(n.args) == 3:
+                a = [self.ex(x)[0] for x in n.args]; return f"opp {a[0]} {a[1]} {a[2]}", "optnat"
+            raise TranslateError(f"{f}: call `{ast.unparse(n)[:50]}`")
+        if isinstance(n, ast.BinOp) and isinstance(n.op, ast.Add):
+            (a, ta), (b, tb) = self.ex(n.left), self.ex(n.right)
+            if ta == "optrat" and tb == "rat": return f"addW ({a}) {b}", "optrat"
+            if ta == "rat" and tb == "optrat": return f"addW ({b}) {a}", "optrat"
+            raise TranslateError(f"{f}: `+` on {ta},{tb}")
+        if isinstance(n, ast.UnaryOp) and isinstance(n.op, ast.Not):
+            a, ta = self.ex(n.operand)
+            if ta != "bool": raise TranslateError(f"{f}: not of {ta}")
+            return f"!({a})", "bool"
+        if isinstance(n, ast.Compare) and len(n.ops) == 1 and isinstance(n.ops[0], ast.Lt):      # `a > b` was normalised to `b < a`
+            (a, ta), (b, tb) = self.ex(n.left), self.ex(n.comparators[0])
+            if ta == tb == "optrat": return f"gt ({b}) ({a})", "bool"
+            raise TranslateError(f"{f}: comparison of {ta},{tb}")
+        raise TranslateError(f"{f}: expression `{ast.unparse(n)[:60]}`")
+
+    def block(self, stmts, ind):
+        """-> Lean text of an expression of type DSt (the current record is `s`)"""
+        f = "_build_dual_tree_no_features"
+        if not stmts: return f"{ind}s"
+        st, rest = stmts[0], stmts[1:]
+        # if c: continue
+        if isinstance(st, ast.If) and not st.orelse and len(_strip(st.body)) == 1 and isinstance(_strip(st.body)[0], ast.Continue):
+            c, tc = self.ex(st.test)
+            if tc != "bool": raise TranslateError(f"{f}: guard of type {tc}")
+            return f"{ind}if {c} then s else\n" + self.block(rest, ind)
+        # a,b = edges[e]
+        if isinstance(st, ast.Assign) and isinstance(st.targets[0], ast.Tuple) and len(st.targets[0].elts) == 2:
+            e, t = self.ex(st.value)
+            if t != "pair": raise TranslateError(f"{f}: unpacking a {t}")
+            out = ""
+            for k, tn in enumerate(st.targets[0].elts): out += f"{ind}let {self.env.bind(tn.id)} := {e}.{k + 1}\n"
+            return out + self.block(rest, ind)
+        # x = opposite_face(..) ; if x is not None: B      (nothing after)
+        if isinstance(st, ast.Assign) and isinstance(st.targets[0], ast.Name) and st.targets[0].id not in self.roles:
+            e, t = self.ex(st.value)
+            if t == "optnat":
+                ok = len(rest) == 1 and isinstance(rest[0], ast.If) and not rest[0].orelse and isinstance(rest[0].test, ast.Compare) \
+                    and isinstance(rest[0].test.ops[0], ast.IsNot) and isinstance(rest[0].test.left, ast.Name) and rest[0].test.left.id == st.targets[0].id \
+                    and isinstance(rest[0].test.comparators[0], ast.Constant) and rest[0].test.comparators[0].value is None
+                if not ok: raise TranslateError(f"{f}: `{st.targets[0].id} = opposite_face(..)` is not followed by the single `if {st.targets[0].id} is not None:`")
+                x = self.env.bind(st.targets[0].id)
+                return f"{ind}match {e} with\n{ind}| none => s\n{ind}| some {x} =>\n" + self.block(_strip(rest[0].body), ind)
+            if t not in ("nat", "rat"): raise TranslateError(f"{f}: local of type {t}")
+            x = self.env.bind(st.targets[0].id, t)
+            return f"{ind}let {x} := {e}\n" + self.block(rest, ind)
+        # container[k] = v
+        if isinstance(st, ast.Assign) and isinstance(st.targets[0], ast.Subscript) and isinstance(st.targets[0].value, ast.Name) \
+                and st.targets[0].value.id in self.roles:
+            r = self.roles[st.targets[0].value.id]
+            k, _ = self.ex(st.targets[0].slice)
+            v, tv = self.ex(st.value)
+            if r == "visited" and tv == "bool": val = v
+            elif r == "dist" and tv == "optrat": val = f"({v})"
+            elif r == "dist" and tv == "nat": val = f"(some {v})"
+            elif r == "path" and tv == "nat": val = f"(some {v})"
+            else: raise TranslateError(f"{f}: `{ast.unparse(st)[:50]}`: a {tv} is stored in {r}")
+            return f"{ind}let s := {{ s with {r} := upd s.{r} {k} {val} }}\n" + self.block(rest, ind)
+        # queue.push(x, p)
+        if isinstance(st, ast.Expr) and isinstance(st.value, ast.Call) and isinstance(st.value.func, ast.Attribute) and isinstance(st.value.func.value, ast.Name) \
+                and self.roles.get(st.value.func.value.id) == "queue":
+            if st.value.func.attr != "push" or len(st.value.args) != 2: raise TranslateError(f"{f}: queue method `{st.value.func.attr}`")
+            x, tx = self.ex(st.value.args[0]); p, tp = self.ex(st.value.args[1])
+            if tx != "nat": raise TranslateError(f"{f}: queue item of type {tx}")
+            pr = f"(prioOf ({p}))" if tp == "optrat" else (f"(.fin {p})" if tp == "nat" else None)
+            if pr is None: raise TranslateError(f"{f}: priority of type {tp}")
+            return f"{ind}let s := {{ s with queue := push s.queue {x} {pr} }}\n" + self.block(rest, ind)
+        # if c: <updates>
+        if isinstance(st, ast.If) and not st.orelse:
+            c, tc = self.ex(st.test)
+            if tc != "bool": raise TranslateError(f"{f}: condition of type {tc}")
+            n0 = self.env.n
+            inner = self.block(_strip(st.body), "")
+            if self.env.n != n0 or "match" in inner or "if " in inner: raise TranslateError(f"{f}: nested control flow inside an `if`")
+            one = "; ".join(l.strip() for l in inner.split("\n"))
+            return f"{ind}let s := if {c} then ({one}) else s\n" + self.block(rest, ind)
+        # for e in face_to_edges(iF)
+        if isinstance(st, ast.For) and not st.orelse and isinstance(st.target, ast.Name) and isinstance(st.iter, ast.Call) \
+                and _path(st.iter.func) == "self.input_mesh.connectivity.face_to_edges" and len(st.iter.args) == 1 and isinstance(st.iter.args[0], ast.Name):
+            if self.inner is not None: raise TranslateError(f"{f}: two loops over face_to_edges")
+            face, _ = self.env.get(st.iter.args[0].id)
+            x = self.env.bind(st.target.id)
+            body = self.block(_strip(st.body), "  ")
+            self.inner = (f"/-- body of `for {x} in face_to_edges({face})` of `_build_dual_tree_no_features` -/\n"
+                          f"def dualInner {DUAL_PARAMS}\n    ({face} : Nat) (s : DSt) ({x} : Nat) : DSt :=\n{body}\n")
+            return f"{ind}let s := (f2e {face}).foldl (dualInner E forbidden opp fd {face}) s\n" + self.block(rest, ind)
+        raise TranslateError(f"{f}: unsupported statement `{ast.unparse(st)[:70]}`")
+
+
+def _compile_dual(tree):
+    fn, params, body = _method(tree, "_build_dual_tree_no_features")
+    if len(params) != 1: raise TranslateError(f"_build_dual_tree_no_features: parameters {params}")
+    roles, fdname, loop, ret = {}, None, None, None
+    init_lines = []
+    pre = []
+    for st in body:
+        if isinstance(st, ast.While): loop = st; continue
+        if isinstance(st, ast.Return): ret = st; continue
+        if loop is not None: raise TranslateError("_build_dual_tree_no_features: statement between the loop and the return")
+        pre.append(st)
+    if loop is None or ret is None: raise TranslateError("_build_dual_tree_no_features: loop / return not found")
+    dc = None
+    for st in pre:
+        if isinstance(st, ast.FunctionDef):
+            b = _strip(st.body)
+            ok = len(st.args.args) == 2 and len(b) == 1 and isinstance(b[0], ast.Return) and isinstance(b[0].value, ast.Call) \
+                and getattr(b[0].value.func, "id", None) == "distance" and len(b[0].value.args) == 2 \
+                and all(isinstance(a, ast.Subscript) and isinstance(a.value, ast.Name) and isinstance(a.slice, ast.Name) for a in b[0].value.args) \
+                and [a.slice.id for a in b[0].value.args] == [x.arg for x in st.args.args] and len({a.value.id for a in b[0].value.args}) == 1
+            if not ok: raise TranslateError("_build_dual_tree_no_features: the nested distance function is not `distance(barycenters[f1], barycenters[f2])`")
+            bary = b[0].value.args[0].value.id
+            if not any(isinstance(p, ast.Assign) and isinstance(p.targets[0], ast.Name) and p.targets[0].id == bary and isinstance(p.value, ast.Call)
+                       and _path(p.value.func) == "attributes.face_barycenter" for p in pre):
+                raise TranslateError("_build_dual_tree_no_features: the barycenters are not `attributes.face_barycenter(..)`")
+            fdname = st.name; continue
+        if isinstance(st, ast.Assign) and isinstance(st.targets[0], ast.Name):
+            v, name = st.value, st.targets[0].id
+            if isinstance(v, ast.Call) and getattr(v.func, "id", None) == "ArrayAttribute" and len(v.args) == 2 and getattr(v.args[0], "id", None) == "bool":
+                roles[name] = "visited"; continue
+            if isinstance(v, ast.Call) and getattr(v.func, "id", None) == "PriorityQueue" and not v.args:
+                roles[name] = "queue"; continue
+            if isinstance(v, ast.Call) and _path(v.func) == "attributes.face_barycenter": continue
+            if isinstance(v, ast.ListComp) and len(v.generators) == 1 and _path(v.generators[0].iter) == "self.input_mesh.id_faces" and not v.generators[0].ifs:
+                if isinstance(v.elt, ast.Constant) and v.elt.value is None: roles[name] = "path"; continue
+                if isinstance(v.elt, ast.Call) and getattr(v.elt.func, "id", None) == "float" and len(v.elt.args) == 1 and getattr(v.elt.args[0], "value", None) == "inf":
+                    roles[name] = "dist"; continue
+            raise TranslateError(f"_build_dual_tree_no_features: initialisation `{ast.unparse(st)[:60]}`")
+        if dc is None:
+            if sorted(roles.values()) != ["dist", "path", "queue", "visited"]:
+                raise TranslateError(f"_build_dual_tree_no_features: containers found before the first update: {sorted(roles.values())}")
+            dc = DualCompiler(roles, params[0], "__none__")
+        init_lines.append(st)
+    if dc is None or fdname is None: raise TranslateError("_build_dual_tree_no_features: initialisations / distance function missing")
+    init = dc.block(init_lines, "  ")
+    dc.fdname = fdname
+    # while not queue.empty(): x = queue.get().x ; ...
+    t = loop.test
+    ok = isinstance(t, ast.UnaryOp) and isinstance(t.op, ast.Not) and isinstance(t.operand, ast.Call) and isinstance(t.operand.func, ast.Attribute) \
+        and t.operand.func.attr == "empty" and isinstance(t.operand.func.value, ast.Name) and roles.get(t.operand.func.value.id) == "queue"
+    if not ok: raise TranslateError(f"_build_dual_tree_no_features: loop condition `{ast.unparse(t)}` is not `not queue.empty()`")
+    wb = _strip(loop.body)
+    g = wb[0] if wb else None
+    ok = isinstance(g, ast.Assign) and isinstance(g.targets[0], ast.Name) and isinstance(g.value, ast.Attribute) and g.value.attr == "x" \
+        and isinstance(g.value.value, ast.Call) and isinstance(g.value.value.func, ast.Attribute) and g.value.value.func.attr == "get" \
+        and isinstance(g.value.value.func.value, ast.Name) and roles.get(g.value.value.func.value.id) == "queue"
+    if not ok: raise TranslateError("_build_dual_tree_no_features: the loop does not start with `iF = queue.get().x`")
+    x1 = dc.env.bind(g.targets[0].id)
+    wbody = dc.block(wb[1:], "  ")
+    if dc.inner is None: raise TranslateError("_build_dual_tree_no_features: the loop over face_to_edges is missing")
+    # return {path[f] for f in id_faces if path[f] is not None}
+    v = ret.value
+    ok = isinstance(v, ast.SetComp) and len(v.generators) == 1 and _path(v.generators[0].iter) == "self.input_mesh.id_faces" and len(v.generators[0].ifs) == 1
+    if ok:
+        fv = v.generators[0].target.id
+        pf = lambda n: isinstance(n, ast.Subscript) and isinstance(n.value, ast.Name) and roles.get(n.value.id) == "path" and isinstance(n.slice, ast.Name) and n.slice.id == fv
+        c = v.generators[0].ifs[0]
+        ok = pf(v.elt) and isinstance(c, ast.Compare) and isinstance(c.ops[0], ast.IsNot) and pf(c.left) and getattr(c.comparators[0], "value", 0) is None
+    if not ok: raise TranslateError("_build_dual_tree_no_features: the returned set is not `{path[f] for f in id_faces if path[f] is not None}`")
+    P = "(pop : Pop) (E : List (Nat × Nat)) (f2e : Nat → List Nat) (forbidden : Nat → Bool)\n    (opp : Nat → Nat → Nat → Option Nat) (fd : Nat → Nat → Rat)"
+    return (dc.inner + "\n"
+            "/-- one iteration of `while not queue.empty()`; `none` when the queue is empty (the loop exits) -/\n"
+            f"def dualBody {P} (s : DSt) : Option DSt :=\n"
+            "  match pop s.queue with\n  | none => none\n  | some (it, q) =>\n  let s := { s with queue := q }\n"
+            f"  let {x1} := it.1\n  some (\n{wbody})\n\n"
+            "/-- the loop, on a fuel argument -/\n"
+            f"def dualWhile {P} : Nat → DSt → DSt\n"
+            "  | 0, s => s\n"
+            "  | fuel + 1, s => match dualBody pop E f2e forbidden opp fd s with\n"
+            "    | none => s\n"
+            "    | some s' => dualWhile pop E f2e forbidden opp fd fuel s'\n\n"
+            "/-- the initialisations before the loop -/\n"
+            "def dualInit : DSt :=\n"
+            "  let s : DSt := { visited := fun _ => false, path := fun _ => none, dist := fun _ => none, queue := [] }\n"
+            f"{init}\n\n"
+            "/-- `SingularityCutter._build_dual_tree_no_features`: the final state and the returned set of edges -/\n"
+            "def buildDualTreeNoFeatures (pop : Pop) (fuel nF : Nat) (E : List (Nat × Nat)) (f2e : Nat → List Nat) (forbidden : Nat → Bool)\n"
+            "    (opp : Nat → Nat → Nat → Option Nat) (fd : Nat → Nat → Rat) : DSt × List Nat :=\n"
+            "  let s := dualWhile pop E f2e forbidden opp fd fuel dualInit\n"
+            "  (s, (idRange nF).filterMap s.path)\n")
+
+
+DUAL_HEADER = ("import Mouette.Model.DualSource\nnamespace Mouette.Generated.C16D\n"
+               "open Mouette Mouette.PQ Mouette.Dijkstra Mouette.CutSrc Mouette.DualSrc\n\n")
+
+
+def dual_site():
+    tree, _ = T.load(FILE)
+    box = {}
+    def run():
+        box["t"] = _compile_dual(tree); return "ok"
+    r = T.site("cutting.py: SingularityCutter._build_dual_tree_no_features (dual Dijkstra: initialisations, while/get, guards, relaxation, path[..] = e, push, returned set)", run)
+    if r["ok"]:
+        _, sha = T.write_generated("C16Dual", box["t"] + "\nend Mouette.Generated.C16D\n", header=DUAL_HEADER)
+        r["detail"] = sha
+    else:
+        T.write_generated("C16Dual", "/- translation of the current tree FAILED: no definitions are emitted, the bridges cannot build -/\n"
+                          "end Mouette.Generated.C16D\n", header=DUAL_HEADER)
+    return r
 
 
 HEADER = ("import Mouette.Model.CutSource\nnamespace Mouette.Generated.C16\nopen Mouette Mouette.Cutting Mouette.CutSrc\n\n")
@@ -755,11 +1077,16 @@ def sites():
                      ("cutting.py: SingularityCutter._run_no_features", lambda: _compile_run_variant(tree, "_run_no_features", "runNoFeatures") and "ok"),
                      ("cutting.py: SingularityCutter._run_with_features", lambda: _compile_run_variant(tree, "_run_with_features", "runWithFeatures") and "ok"),
                      ("cutting.py: SingularityCutter.run", lambda: _compile_run(tree) and "ok"),
-                     ("cutting.py: SingularityCutter._build_mesh_with_cuts (corner numbering, union loop, imap loop)", lambda: _compile_mesh_loops(tree) and "ok")):
+                     ("cutting.py: SingularityCutter._build_mesh_with_cuts (corner numbering, union loop, find loop, imap loop, renumbering loop, order_verts)", lambda: _compile_mesh_loops(tree) and "ok")):
         r = T.site(name, fn)
         ok = ok and r["ok"]
         recs.append(r)
     if ok:
         sha = translate_all()
         for r in recs: r["detail"] = sha
-    return recs
+    else:
+        # never leave the definitions of an EARLIER tree on disk: a stub without definitions makes every bridge fail to build
+        bad = "; ".join(r["site"].split(": ")[-1] for r in recs if not r["ok"])
+        T.write_generated("C16Cut", f"/- translation of the current tree FAILED ({bad}): no definitions are emitted, the bridges cannot build -/\n"
+                          "end Mouette.Generated.C16\n", header=HEADER)
+    return recs + [dual_site()]
